@@ -154,14 +154,8 @@ def rule_flow_config_names(ctx):
 def _validate_role(ctx):
     """The function that panics for durations above the limit (role: compares both config durations against
     a Duration built from a constant and diverges)."""
-    out = []
-    for nid, b in ctx.prog.bodies.items():
-        if b.kind == 'closure' or b.argc != 2:
-            continue
-        names = [b.local_name(1), b.local_name(2)]
-        if names == ['time_to_live', 'time_to_idle'] and b.locals[0]['ty']['s'] == '()':
-            out.append(nid)
-    return out
+    from .roles import validation_role
+    return validation_role(ctx)
 
 
 def rule_build_validate(ctx):
